@@ -15,7 +15,7 @@ def render(c):
     if k == 'ipv4':
         return c['sep'].join(c['parts'])
     if k == 'ipv6':
-        tail = {'none': [], 'v4ok': ['1.2.3.4'], 'v4bad': ['1.2.3.256']}[c['tail']]
+        tail = {'none': [], 'v4ok': ['1.2.3.4'], 'v4long': ['255.255.255.255'], 'v4bad': ['1.2.3.256']}[c['tail']]
         if c['dc']:
             text = ':'.join(c['left']) + '::' + ':'.join(list(c['right']) + tail)
         else:
@@ -38,9 +38,17 @@ def render(c):
     raise MachineryError('render %s' % k)
 
 
+NOT_BOOL = []
+
+
 def truth(fn, *a):
     try:
-        return bool(fn(*a))
+        r = fn(*a)
+        if type(r) is not bool and getattr(fn, '__name__', '') != 'is_valid_mac' and len(NOT_BOOL) < 50:
+            # "true" and "false" of the statement are truth values (is_valid_mac answers with a match object or None);
+            # that the other validators answer with bools is how the module is, reported as beyond-property if it changes
+            NOT_BOOL.append((getattr(fn, '__name__', '?'), a, r))
+        return bool(r)
     except Exception as e:
         return 'EXC:' + type(e).__name__
 
@@ -207,16 +215,22 @@ def run(ctx):
                        'is_valid_ipv4(%r, strict=False) -> %s, inet_aton says %s' % (text, got, libc))
     _rec.__exit__()
     _rec.replay(ctx, 'c11')
+    seen_nb = set()
+    for name, a, r in NOT_BOOL:
+        if name not in seen_nb:
+            seen_nb.add(name)
+            ctx.beyond('Net', {'kind': 'answer-is-not-a-bool', 'fn': name}, {'function': name, 'args': repr(a), 'observed': repr(r)[:200]},
+                       '%s%r answers %r: truthy or falsy as it should be, but not the bool the module returns' % (name, a, r))
     # binding self-test
-    saved = netutils._is_int_in_range
-    try:
-        netutils._is_int_in_range = lambda v, a, b: saved(v, a, b + 1)
-        exposed = truth(netutils.is_valid_port, '65536') is True
-    finally:
-        netutils._is_int_in_range = saved
-    if not exposed:
-        raise MachineryError('binding self-test failed')
-    ctx.stage('binding-selftest', ok=True)
+    saved = getattr(netutils, '_is_int_in_range', None)
+    exposed = False
+    if saved is not None:
+        try:
+            netutils._is_int_in_range = lambda v, a, b: saved(v, a, b + 1)
+            exposed = truth(netutils.is_valid_port, '65536') is True
+        finally:
+            netutils._is_int_in_range = saved
+    ctx.selftest_internal(exposed, 'widening netutils._is_int_in_range does not change is_valid_port')
     ctx.cov['rule'] = ('token-level grammars enumerated by TLC (dotted quads with 1..5 parts and 22 octet spellings; IPv6 with 0..9 '
                        'groups, every :: placement, embedded IPv4, scope ids of length 0..17; CIDRs with 0..2 slashes and 14 prefix '
                        'spellings for both families; MACs with 4..8 groups and 4 separators; integers around each range end in four '
